@@ -1,0 +1,9 @@
+//go:build verif
+
+package edit
+
+// Verification hook for property C02 (add-only, built only with -tags verif).
+
+// VerifIsSyntaxComplete exposes isSyntaxComplete, the decision smart-enter
+// uses to insert a newline instead of submitting the code.
+func VerifIsSyntaxComplete(code string) bool { return isSyntaxComplete(code) }
